@@ -1,0 +1,759 @@
+//! Line-protocol driver used by the verification machinery in /verif
+//! (only compiled with `--cfg picilisp_verif`; started with `--verif-driver`).
+//!
+//! One request per input line, one response line per request.  The requests
+//! call the real interpreter code in-process: `Memory`, `read`, `eval`,
+//! `print`, the I/O pipe, `input-file`.
+
+use crate::memory::*;
+use crate::memory::verif::{self, Schedule};
+use crate::metadata::*;
+use crate::util::*;
+use crate::native;
+use crate::native::list::property;
+use crate::debug::*;
+use std::cell::RefCell;
+use std::collections::HashMap;
+use std::io::{BufRead, Read, Write};
+use std::rc::Rc;
+use std::time::Duration;
+
+
+type NativeFn = fn(&mut Memory, &[GcRef], GcRef, usize) -> Result<GcRef, GcRef>;
+
+fn native_table() -> Vec<(&'static str, NativeFn)> {
+    vec![
+        ("cons", native::list::cons), ("car", native::list::car), ("cdr", native::list::cdr), ("list", native::list::list),
+        (".", native::list::get_property), ("append", native::list::append), ("unrest", native::list::unrest),
+        ("abort", native::signal::abort), ("signal", native::signal::signal), ("read", native::read::read),
+        ("make-trap", native::eval::make_trap), ("make-function", native::eval::make_function),
+        ("call-native-function", native::eval::call_native_function), ("macroexpand", native::eval::macroexpand),
+        ("eval", native::eval::eval), ("load-all", native::eval::load_all), ("print", native::print::print),
+        ("add", native::numbers::add), ("substract", native::numbers::substract), ("multiply", native::numbers::multiply),
+        ("divide", native::numbers::divide), ("<", native::numbers::less), (">", native::numbers::greater),
+        ("define", native::globals::define), ("undefine", native::globals::undefine), ("whereis", native::globals::whereis),
+        ("export", native::globals::export), ("get-current-module", native::globals::get_current_module),
+        ("from-module", native::globals::from_module), ("with-current-module", native::globals::with_current_module),
+        ("destructure-trap", native::reflection::destructure_trap), ("destructure-function", native::reflection::destructure_function),
+        ("type-of", native::reflection::type_of), ("get-metadata", native::reflection::get_metadata),
+        ("send", native::debug::send), ("receive", native::debug::receive),
+        ("input-file", native::io::input_file), ("output-file", native::io::output_file),
+        ("gensym", native::misc::gensym), ("=", native::misc::equal),
+    ]
+}
+
+
+fn hex(s: &str) -> String {
+    hex_bytes(s.as_bytes())
+}
+
+fn hex_bytes(bytes: &[u8]) -> String {
+    let mut out = String::new();
+    for b in bytes {
+        out.push_str(&format!("{:02x}", b));
+    }
+    if out.is_empty() { out.push('-'); }
+    out
+}
+
+fn unhex_bytes(s: &str) -> Option<Vec<u8>> {
+    if s == "-" { return Some(vec![]); }
+    if s.len() % 2 != 0 { return None; }
+    let mut out = vec![];
+    let b = s.as_bytes();
+    for i in (0 .. b.len()).step_by(2) {
+        let h = (b[i] as char).to_digit(16)?;
+        let l = (b[i + 1] as char).to_digit(16)?;
+        out.push((h * 16 + l) as u8);
+    }
+    Some(out)
+}
+
+fn unhex(s: &str) -> Option<String> {
+    String::from_utf8(unhex_bytes(s)?).ok()
+}
+
+
+struct SharedWriter(Rc<RefCell<Vec<u8>>>);
+
+impl Write for SharedWriter {
+    fn write(&mut self, buf: &[u8]) -> std::io::Result<usize> {
+        self.0.borrow_mut().extend_from_slice(buf);
+        Ok(buf.len())
+    }
+    fn flush(&mut self) -> std::io::Result<()> {
+        Ok(())
+    }
+}
+
+
+/// a `Read` that hands out exactly the scripted chunks, then EOF
+struct ScriptedReader {
+    chunks: std::collections::VecDeque<Vec<u8>>,
+    reads: Rc<RefCell<usize>>,
+}
+
+impl Read for ScriptedReader {
+    fn read(&mut self, buf: &mut [u8]) -> std::io::Result<usize> {
+        *self.reads.borrow_mut() += 1;
+        if let Some(mut chunk) = self.chunks.pop_front() {
+            let n = chunk.len().min(buf.len());
+            buf[0 .. n].copy_from_slice(&chunk[0 .. n]);
+            if n < chunk.len() {
+                let rest = chunk.split_off(n);
+                self.chunks.push_front(rest);
+            }
+            Ok(n)
+        }
+        else {
+            Ok(0)
+        }
+    }
+}
+
+
+const DUMP_BUDGET: usize = 20000;
+
+enum DumpItem {
+    Val(GcRef),
+    Cdr(GcRef),
+    Text(String),
+}
+
+/// canonical, address-free, metadata-showing text form of a value (iterative: safe on deep structures)
+fn dump(natives: &[(&'static str, NativeFn)], x: GcRef) -> String {
+    let mut out = String::new();
+    let mut gensyms: HashMap<String, usize> = HashMap::new();
+    let mut budget = DUMP_BUDGET;
+    let mut stack = vec![DumpItem::Val(x)];
+
+    while let Some(item) = stack.pop() {
+        match item {
+            DumpItem::Text(t) => out.push_str(&t),
+            DumpItem::Cdr(d) => {
+                // inside a list: print the rest of it
+                if d.verif_is_null() {
+                    out.push(')');
+                }
+                else if d.get_meta().is_none() && matches!(d.get(), Some(PrimitiveValue::Cons(_))) {
+                    if budget == 0 { out.push_str(" ...)"); continue; }
+                    budget -= 1;
+                    if let Some(PrimitiveValue::Cons(c)) = d.get() {
+                        out.push(' ');
+                        stack.push(DumpItem::Cdr(c.get_cdr()));
+                        stack.push(DumpItem::Val(c.get_car()));
+                    }
+                }
+                else {
+                    out.push_str(" . ");
+                    stack.push(DumpItem::Text(")".to_string()));
+                    stack.push(DumpItem::Val(d));
+                }
+            },
+            DumpItem::Val(v) => {
+                if budget == 0 { out.push_str("..."); continue; }
+                budget -= 1;
+                if v.verif_is_null() {
+                    out.push_str("()");
+                }
+                else if let Some(md) = v.get_meta() {
+                    let loc =
+                    match &md.location {
+                        Location::Native                     => "native".to_string(),
+                        Location::Prelude{ line, column }    => format!("prelude:{line}:{column}"),
+                        Location::Stdin{ line, column }      => format!("stdin:{line}:{column}"),
+                        Location::File{ path, line, column } => format!("file.{}:{line}:{column}", hex(&path.to_string_lossy())),
+                    };
+                    out.push_str(&format!("M{{{},{},{}}}", hex(&md.read_name), loc, hex(&md.documentation)));
+                    stack.push(DumpItem::Val(v.clone_without_meta()));
+                }
+                else {
+                    match v.get() {
+                        None => out.push_str("()"),
+                        Some(PrimitiveValue::Number(n))    => out.push_str(&format!("N{n}")),
+                        Some(PrimitiveValue::Character(c)) => out.push_str(&format!("C{}", *c as u32)),
+                        Some(PrimitiveValue::Symbol(s))    => {
+                            let name = s.get_name();
+                            if !s.verif_is_named() {
+                                let k = gensyms.len();
+                                let id = *gensyms.entry(name).or_insert(k);
+                                out.push_str(&format!("G{id}"));
+                            }
+                            else {
+                                out.push_str(&format!("S{}", hex(&name)));
+                            }
+                        },
+                        Some(PrimitiveValue::Cons(c)) => {
+                            out.push('(');
+                            stack.push(DumpItem::Cdr(c.get_cdr()));
+                            stack.push(DumpItem::Val(c.get_car()));
+                        },
+                        Some(PrimitiveValue::Trap(t)) => {
+                            out.push_str("T{");
+                            stack.push(DumpItem::Text("}".to_string()));
+                            stack.push(DumpItem::Val(t.get_trap_body()));
+                            stack.push(DumpItem::Text(",".to_string()));
+                            stack.push(DumpItem::Val(t.get_normal_body()));
+                        },
+                        Some(PrimitiveValue::Function(Function::NativeFunction(nf))) => {
+                            let name = natives.iter().find(|(_, f)| nf.is_the_same_as(*f)).map(|(n, _)| *n).unwrap_or("?");
+                            out.push_str(&format!("P{}", hex(name)));
+                        },
+                        Some(PrimitiveValue::Function(Function::NormalFunction(nf))) => {
+                            out.push_str(&format!("F{{{},{},{},[", nf.get_kind().to_string(), if nf.rest_param().is_some() {1} else {0}, hex(&nf.get_env_module())));
+                            stack.push(DumpItem::Text("}".to_string()));
+                            stack.push(DumpItem::Val(nf.get_env()));
+                            stack.push(DumpItem::Text(",".to_string()));
+                            stack.push(DumpItem::Val(nf.get_body()));
+                            stack.push(DumpItem::Text("],".to_string()));
+                            let params = nf.get_params();
+                            for (i, p) in params.iter().enumerate().rev() {
+                                stack.push(DumpItem::Val(p.clone()));
+                                if i > 0 { stack.push(DumpItem::Text(" ".to_string())); }
+                            }
+                        },
+                    }
+                }
+            },
+        }
+    }
+
+    out
+}
+
+struct Session {
+    // field order matters: handles must be dropped before the memory they point into
+    slots: Vec<Option<GcRef>>,
+    mem: Memory,
+    out: Rc<RefCell<Vec<u8>>>,
+    stdin_reads: Rc<RefCell<usize>>,
+    umbilical_high: Option<UmbilicalHighEnd>,
+}
+
+impl Session {
+    fn new(words: &[&str]) -> Result<Self, String> {
+        let mut mem = Memory::new();
+        let out = Rc::new(RefCell::new(vec![]));
+        mem.set_stdout(Box::new(SharedWriter(out.clone())));
+        let stdin_reads = Rc::new(RefCell::new(0));
+        mem.set_stdin(Box::new(ScriptedReader{ chunks: Default::default(), reads: stdin_reads.clone() }));
+        let mut umbilical_high = None;
+        if words.contains(&"umbilical") {
+            let (high, low) = make_umbilical();
+            mem.attach_umbilical(low);
+            umbilical_high = Some(high);
+        }
+        if !words.contains(&"empty") {
+            native::load_native_functions(&mut mem);
+        }
+        if words.contains(&"prelude") || words.contains(&"repl") || words.contains(&"debugger") {
+            crate::ui::load_prelude(&mut mem)?;
+        }
+        if words.contains(&"repl") {
+            crate::ui::load_repl(&mut mem)?;
+        }
+        if words.contains(&"debugger") {
+            crate::ui::load_debugger(&mut mem)?;
+        }
+        out.borrow_mut().clear();
+        Ok(Self{ slots: vec![], mem, out, stdin_reads, umbilical_high })
+    }
+
+    fn slot(&self, word: &str) -> Result<GcRef, String> {
+        if word == "_" || word == "-1" {
+            return Ok(GcRef::nil());
+        }
+        let i: usize = word.parse().map_err(|_| format!("bad slot {word}"))?;
+        match self.slots.get(i) {
+            Some(Some(x)) => Ok(x.clone()),
+            _ => Err(format!("empty slot {i}")),
+        }
+    }
+
+    fn set_slot(&mut self, word: &str, value: GcRef) -> Result<(), String> {
+        let i: usize = word.parse().map_err(|_| format!("bad slot {word}"))?;
+        while self.slots.len() <= i {
+            self.slots.push(None);
+        }
+        self.slots[i] = Some(value);
+        Ok(())
+    }
+
+    fn drain_debug_messages(&mut self) -> String {
+        let mut msgs = vec![];
+        if let Some(high) = &self.umbilical_high {
+            while let Ok(msg) = high.from_low_end.try_recv() {
+                if msg.get("kind").map(|k| k == MEMORY_SAMPLE).unwrap_or(false) {
+                    continue;
+                }
+                let mut kv = msg.iter().map(|(k, v)| format!("{}={}", hex(k), hex(v))).collect::<Vec<String>>();
+                kv.sort();
+                msgs.push(kv.join("&"));
+            }
+        }
+        msgs.join(";")
+    }
+}
+
+
+fn print_to_string(mem: &mut Memory, x: GcRef) -> String {
+    match native::print::print(mem, &[x], GcRef::nil(), 0) {
+        Ok(p) => {
+            match list_to_string(p) {
+                Some(s) => hex(&s),
+                None    => "!notstring".to_string(),
+            }
+        },
+        Err(_) => "!printsig".to_string(),
+    }
+}
+
+fn outcome(natives: &[(&'static str, NativeFn)], mem: &mut Memory, r: Result<GcRef, GcRef>) -> String {
+    match r {
+        Ok(x) => format!("ok:{}:{}", print_to_string(mem, x.clone()), dump(natives, x)),
+        Err(s) => {
+            if s.is_nil() {
+                "abort".to_string()
+            }
+            else {
+                format!("sig:{}:{}", print_to_string(mem, s.clone()), dump(natives, s))
+            }
+        },
+    }
+}
+
+
+/// read every form of `text` (source stdin, starting at 1:1) and evaluate each one with `eval`, continuing after signals
+fn cmd_eval(natives: &[(&'static str, NativeFn)], sess: &mut Session, text: &str, stop_on_signal: bool) -> String {
+    let mem = &mut sess.mem;
+    let mut results = vec![];
+    let mut cursor = string_to_list(mem, text);
+    let stdin_symbol = mem.symbol_for("stdin");
+    let mut line = mem.allocate_number(1);
+    let mut column = mem.allocate_number(1);
+    let status;
+    loop {
+        if cursor.is_nil() {
+            status = "end".to_string();
+            break;
+        }
+        let output =
+        match native::read::read(mem, &[cursor.clone(), stdin_symbol.clone(), line.clone(), column.clone()], GcRef::nil(), 0) {
+            Ok(o)  => o,
+            Err(s) => { status = format!("readsig:{}", print_to_string(mem, s)); break; },
+        };
+        let st = property(mem, "status", output.clone()).unwrap();
+        let st_name = st.get().map(|v| v.as_symbol().get_name()).unwrap_or("?".to_string());
+        if st_name == "ok" {
+            let result = property(mem, "result", output.clone()).unwrap();
+            cursor     = property(mem, "rest", output.clone()).unwrap();
+            line       = property(mem, "line", output.clone()).unwrap();
+            column     = property(mem, "column", output).unwrap();
+            let r = native::eval::eval(mem, &[result], GcRef::nil(), 0);
+            let failed = r.is_err();
+            results.push(outcome(natives, mem, r));
+            if failed && stop_on_signal {
+                status = "stopped".to_string();
+                break;
+            }
+        }
+        else {
+            status = format!("{}:{}", st_name, print_to_string(mem, output));
+            break;
+        }
+    }
+    let cur = hex(&mem.get_current_module());
+    let out = hex_bytes(&sess.out.borrow());
+    sess.out.borrow_mut().clear();
+    let dbg = sess.drain_debug_messages();
+    format!("{} | end={} out={} cur={} dbg={}", results.join(" "), status, out, cur, dbg)
+}
+
+
+fn cmd_read(natives: &[(&'static str, NativeFn)], sess: &mut Session, words: &[&str]) -> Result<String, String> {
+    // read <hex text> <source: stdin|prelude|file.<hex>|sym.<hex>> <line> <column>
+    let text = unhex(words.get(0).ok_or("missing text")?).ok_or("bad hex")?;
+    let mem = &mut sess.mem;
+    let input = string_to_list(mem, &text);
+    let source_word = words.get(1).copied().unwrap_or("stdin");
+    let source =
+    if let Some(p) = source_word.strip_prefix("file.") {
+        string_to_proper_list(mem, &unhex(p).ok_or("bad hex")?)
+    }
+    else if let Some(p) = source_word.strip_prefix("sym.") {
+        mem.symbol_for(&unhex(p).ok_or("bad hex")?)
+    }
+    else {
+        mem.symbol_for(source_word)
+    };
+    let l: i64 = words.get(2).copied().unwrap_or("1").parse().map_err(|_| "bad line")?;
+    let c: i64 = words.get(3).copied().unwrap_or("1").parse().map_err(|_| "bad column")?;
+    let line = mem.allocate_number(l);
+    let column = mem.allocate_number(c);
+    let r = native::read::read(mem, &[input, source, line, column], GcRef::nil(), 0);
+    Ok(match r {
+        Ok(x)  => format!("ok:{}", dump(natives, x)),
+        Err(s) => format!("sig:{}", dump(natives, s)),
+    })
+}
+
+
+fn cmd_heap(natives: &[(&'static str, NativeFn)], sess: &mut Session, words: &[&str]) -> Result<String, String> {
+    let op = *words.get(0).ok_or("missing heap op")?;
+    let w = |i: usize| -> Result<&str, String> { words.get(i).copied().ok_or(format!("missing argument {i}")) };
+    match op {
+        "num" => {
+            let n: i64 = w(2)?.parse().map_err(|_| "bad number")?;
+            let x = sess.mem.allocate_number(n);
+            sess.set_slot(w(1)?, x)?;
+            Ok("ok".to_string())
+        },
+        "chr" => {
+            let n: u32 = w(2)?.parse().map_err(|_| "bad code point")?;
+            let x = sess.mem.allocate_character(char::from_u32(n).ok_or("not a scalar value")?);
+            sess.set_slot(w(1)?, x)?;
+            Ok("ok".to_string())
+        },
+        "cons" => {
+            let a = sess.slot(w(2)?)?;
+            let d = sess.slot(w(3)?)?;
+            let x = sess.mem.allocate_cons(a, d);
+            sess.set_slot(w(1)?, x)?;
+            Ok("ok".to_string())
+        },
+        "sym" => {
+            let name = unhex(w(2)?).ok_or("bad hex")?;
+            let x = sess.mem.symbol_for(&name);
+            sess.set_slot(w(1)?, x)?;
+            Ok("ok".to_string())
+        },
+        "gensym" => {
+            let x = sess.mem.unique_symbol();
+            sess.set_slot(w(1)?, x)?;
+            Ok("ok".to_string())
+        },
+        "trap" => {
+            let a = sess.slot(w(2)?)?;
+            let d = sess.slot(w(3)?)?;
+            let x = sess.mem.allocate_trap(a, d);
+            sess.set_slot(w(1)?, x)?;
+            Ok("ok".to_string())
+        },
+        "fn" => {
+            // fn <dst> <lambda|macro> <rest 0|1> <body> <env> <hex module> <p1,p2,...|->
+            let kind = if w(2)? == "macro" { FunctionKind::Macro } else { FunctionKind::Lambda };
+            let rest = w(3)? == "1";
+            let body = sess.slot(w(4)?)?;
+            let env = sess.slot(w(5)?)?;
+            let module = unhex(w(6)?).ok_or("bad hex")?;
+            let mut params = vec![];
+            if w(7)? != "-" {
+                for p in w(7)?.split(',') {
+                    let x = sess.slot(p)?;
+                    if !matches!(x.get(), Some(PrimitiveValue::Symbol(_))) {
+                        return Ok("refused:param-not-symbol".to_string());
+                    }
+                    params.push(x);
+                }
+            }
+            if rest && params.is_empty() {
+                return Ok("refused:rest-without-params".to_string());
+            }
+            let x = sess.mem.allocate_normal_function(kind, rest, body, &params, env, &module);
+            sess.set_slot(w(1)?, x)?;
+            Ok("ok".to_string())
+        },
+        "meta" => {
+            // meta <dst> <src> <hex read name> <hex doc> <line> <column>
+            let x = sess.slot(w(2)?)?;
+            if x.get_meta().is_some() {
+                return Ok("refused:meta-of-meta".to_string());
+            }
+            let md = Metadata{ read_name: unhex(w(3)?).ok_or("bad hex")?, location: Location::Stdin{ line: w(5)?.parse().map_err(|_| "bad line")?, column: w(6)?.parse().map_err(|_| "bad column")? }, documentation: unhex(w(4)?).ok_or("bad hex")? };
+            let y = sess.mem.allocate_metadata(x, md);
+            sess.set_slot(w(1)?, y)?;
+            Ok("ok".to_string())
+        },
+        "clone" => {
+            let x = sess.slot(w(2)?)?;
+            sess.set_slot(w(1)?, x)?;
+            Ok("ok".to_string())
+        },
+        "drop" => {
+            let i: usize = w(1)?.parse().map_err(|_| "bad slot")?;
+            if i < sess.slots.len() {
+                sess.slots[i] = None;
+            }
+            Ok("ok".to_string())
+        },
+        "car" | "cdr" => {
+            let x = sess.slot(w(2)?)?;
+            let y =
+            if let Some(PrimitiveValue::Cons(c)) = x.get() {
+                if op == "car" { c.get_car() } else { c.get_cdr() }
+            }
+            else {
+                return Ok("refused:not-cons".to_string());
+            };
+            sess.set_slot(w(1)?, y)?;
+            Ok("ok".to_string())
+        },
+        "def" => {
+            let name = unhex(w(1)?).ok_or("bad hex")?;
+            let x = sess.slot(w(2)?)?;
+            sess.mem.define_global(&name, x);
+            Ok("ok".to_string())
+        },
+        "undef" => {
+            let name = unhex(w(1)?).ok_or("bad hex")?;
+            sess.mem.undefine_global(&name);
+            Ok("ok".to_string())
+        },
+        "getglobal" => {
+            // getglobal <dst> <hex name> <hex home module>
+            let name = unhex(w(2)?).ok_or("bad hex")?;
+            let home = unhex(w(3)?).ok_or("bad hex")?;
+            match sess.mem.get_global(&name, &home) {
+                Ok(x) => { sess.set_slot(w(1)?, x)?; Ok("ok".to_string()) },
+                Err(ModulError::AmbiguousName(mut ms)) => { ms.sort(); Ok(format!("ambiguous:{}", ms.iter().map(|m| hex(m)).collect::<Vec<String>>().join(","))) },
+                Err(_) => Ok("notfound".to_string()),
+            }
+        },
+        "collect" => {
+            sess.mem.verif_force_collect();
+            Ok(format!("ok used={} free={}", sess.mem.used_count(), sess.mem.free_count()))
+        },
+        "snap" => {
+            Ok(sess.mem.verif_snapshot(true))
+        },
+        "inv" => {
+            let p = sess.mem.verif_check_invariants();
+            Ok(if p.is_empty() { "ok".to_string() } else { format!("broken:{p}") })
+        },
+        "peek" => {
+            let x = sess.slot(w(1)?)?;
+            Ok(dump(natives, x))
+        },
+        "symeq" => {
+            let a = sess.slot(w(1)?)?;
+            let b = sess.slot(w(2)?)?;
+            Ok(format!("{}", symbol_eq!(a, b)))
+        },
+        "counts" => {
+            Ok(format!("used={} free={} len={}", sess.mem.used_count(), sess.mem.free_count(), sess.mem.verif_cells_len()))
+        },
+        _ => Err(format!("unknown heap op {op}")),
+    }
+}
+
+
+struct PipeSession {
+    tx: crate::io::IoSender,
+    rx: crate::io::IoReceiver,
+}
+
+fn cmd_pipe(pipe: &mut Option<PipeSession>, words: &[&str]) -> Result<String, String> {
+    let op = *words.get(0).ok_or("missing pipe op")?;
+    if op == "new" {
+        let (tx, rx) = crate::io::make_io(Duration::ZERO);
+        *pipe = Some(PipeSession{ tx, rx });
+        return Ok("ok".to_string());
+    }
+    let p = pipe.as_mut().ok_or("no pipe")?;
+    match op {
+        "w" => {
+            let bytes = unhex_bytes(words.get(1).ok_or("missing bytes")?).ok_or("bad hex")?;
+            match p.tx.write(&bytes) {
+                Ok(n)  => Ok(format!("wrote {n}")),
+                Err(e) => Ok(format!("err {:?}", e.kind())),
+            }
+        },
+        "f" => {
+            match p.tx.flush() {
+                Ok(()) => Ok("flushed".to_string()),
+                Err(e) => Ok(format!("err {:?}", e.kind())),
+            }
+        },
+        "r" => {
+            let n: usize = words.get(1).ok_or("missing size")?.parse().map_err(|_| "bad size")?;
+            let mut buf = vec![0u8; n];
+            match p.rx.read(&mut buf) {
+                Ok(0)  => Ok("zero".to_string()),
+                Ok(k)  => Ok(format!("data {}", hex_bytes(&buf[0 .. k]))),
+                Err(e) => {
+                    if e.kind() == std::io::ErrorKind::TimedOut { Ok("timeout".to_string()) } else { Ok(format!("err {:?}", e.kind())) }
+                },
+            }
+        },
+        _ => Err(format!("unknown pipe op {op}")),
+    }
+}
+
+
+thread_local! {
+    static LAST_PANIC: RefCell<String> = RefCell::new(String::new());
+}
+
+fn handle(natives: &[(&'static str, NativeFn)], session: &mut Option<Session>, pipe: &mut Option<PipeSession>, line: &str) -> Result<String, String> {
+    let words = line.split_whitespace().collect::<Vec<&str>>();
+    let cmd = *words.get(0).ok_or("empty request")?;
+    match cmd {
+        "new" => {
+            *session = None;
+            verif::set_schedule(Schedule::Natural);
+            verif::reset_counters();
+            *session = Some(Session::new(&words[1..])?);
+            Ok("ok".to_string())
+        },
+        "sched" => {
+            let spec = *words.get(1).ok_or("missing schedule")?;
+            let s =
+            if spec == "natural" {
+                Schedule::Natural
+            }
+            else if let Some(k) = spec.strip_prefix("every:") {
+                Schedule::Every(k.parse().map_err(|_| "bad k")?)
+            }
+            else if let Some(rest) = spec.strip_prefix("lcg:") {
+                let mut it = rest.split(':');
+                let seed: u64 = it.next().ok_or("missing seed")?.parse().map_err(|_| "bad seed")?;
+                let per256: u64 = it.next().ok_or("missing rate")?.parse().map_err(|_| "bad rate")?;
+                Schedule::Lcg{ state: seed, per256 }
+            }
+            else {
+                return Err(format!("unknown schedule {spec}"));
+            };
+            verif::set_schedule(s);
+            Ok("ok".to_string())
+        },
+        "poison" => {
+            verif::set_poison(words.get(1).copied() == Some("1"));
+            Ok("ok".to_string())
+        },
+        "eval" | "evalstop" => {
+            let sess = session.as_mut().ok_or("no session")?;
+            let text = unhex(words.get(1).ok_or("missing text")?).ok_or("bad hex")?;
+            Ok(cmd_eval(natives, sess, &text, cmd == "evalstop"))
+        },
+        "read" => {
+            let sess = session.as_mut().ok_or("no session")?;
+            cmd_read(natives, sess, &words[1..])
+        },
+        "stdin" => {
+            // stdin <hex chunk>,<hex chunk>,...
+            let sess = session.as_mut().ok_or("no session")?;
+            let mut chunks = std::collections::VecDeque::new();
+            if let Some(spec) = words.get(1) {
+                for c in spec.split(',') {
+                    chunks.push_back(unhex_bytes(c).ok_or("bad hex")?);
+                }
+            }
+            *sess.stdin_reads.borrow_mut() = 0;
+            sess.mem.set_stdin(Box::new(ScriptedReader{ chunks, reads: sess.stdin_reads.clone() }));
+            Ok("ok".to_string())
+        },
+        "command" => {
+            // command <hex command>: queue a debugger command on the umbilical
+            let sess = session.as_mut().ok_or("no session")?;
+            let c = unhex(words.get(1).ok_or("missing command")?).ok_or("bad hex")?;
+            if let Some(high) = &sess.umbilical_high {
+                let mut dm = DebugMessage::new();
+                dm.insert("command".to_string(), c);
+                high.to_low_end.send(dm).map_err(|_| "low end disappeared")?;
+                Ok("ok".to_string())
+            }
+            else {
+                Err("no umbilical".to_string())
+            }
+        },
+        "audit" => {
+            // handle audit at a quiescent point: after a forced collection every handle belongs to a definition or a driver slot
+            let sess = session.as_mut().ok_or("no session")?;
+            sess.mem.verif_force_collect();
+            let rc = sess.mem.verif_rc_sum();
+            let rc_free = sess.mem.verif_rc_sum_free();
+            let defs = sess.mem.verif_definition_count();
+            let slots = sess.slots.iter().filter(|s| s.as_ref().map(|x| !x.verif_is_null()).unwrap_or(false)).count();
+            let inv = sess.mem.verif_check_invariants();
+            let verdict = if rc == defs + slots && rc_free == 0 && inv.is_empty() { "ok" } else { "LEAK" };
+            Ok(format!("{verdict} handles={rc} free-handles={rc_free} defs={defs} slots={slots} used={} len={} inv={}", sess.mem.used_count(), sess.mem.verif_cells_len(), if inv.is_empty() {"ok".to_string()} else {inv}))
+        },
+        "h" => {
+            let sess = session.as_mut().ok_or("no session")?;
+            cmd_heap(natives, sess, &words[1..])
+        },
+        "p" => cmd_pipe(pipe, &words[1..]),
+        "collections" => Ok(format!("{}", verif::collections())),
+        "ratio" => {
+            // ratio <n>: the three f32 size formulas of the collector for n cells
+            let n: usize = words.get(1).ok_or("missing n")?.parse().map_err(|_| "bad n")?;
+            Ok(format!("{} {} {}",
+                (n as f32 * crate::config::ALLOCATION_RATIO) as usize,
+                (n as f32 * crate::config::MAXIMUM_FREE_RATIO) as usize,
+                (n as f32 * crate::config::MINIMUM_FREE_RATIO) as usize))
+        },
+        "whitespace" => {
+            // all scalar values for which char::is_whitespace holds
+            let v = (0 ..= 0x10ffffu32).filter_map(char::from_u32).filter(|c| c.is_whitespace()).map(|c| format!("{}", c as u32)).collect::<Vec<String>>();
+            Ok(v.join(","))
+        },
+        "graphemes" => {
+            // graphemes <hex text>: number of extended grapheme clusters (what build_character consults)
+            use unicode_segmentation::UnicodeSegmentation;
+            let t = unhex(words.get(1).ok_or("missing text")?).ok_or("bad hex")?;
+            Ok(format!("{}", t.graphemes(true).count()))
+        },
+        "echo" => Ok(words[1..].join(" ")),
+        _ => Err(format!("unknown request {cmd}")),
+    }
+}
+
+
+fn serve() {
+    let natives = native_table();
+    let mut session: Option<Session> = None;
+    let mut pipe: Option<PipeSession> = None;
+
+    std::panic::set_hook(Box::new(|info| {
+        let msg = format!("{info}");
+        LAST_PANIC.with(|p| *p.borrow_mut() = msg);
+    }));
+
+    let stdin = std::io::stdin();
+    let stdout = std::io::stdout();
+    let mut out = std::io::BufWriter::new(stdout.lock());
+    for line in stdin.lock().lines() {
+        let line = if let Ok(l) = line { l } else { break };
+        if line.trim().is_empty() {
+            continue;
+        }
+        // announce the request before running it, so that a process abort can be attributed
+        let r = std::panic::catch_unwind(std::panic::AssertUnwindSafe(|| handle(&natives, &mut session, &mut pipe, &line)));
+        let response =
+        match r {
+            Ok(Ok(s))  => s,
+            Ok(Err(e)) => format!("driver-error {}", e.replace('\n', " ")),
+            Err(_) => {
+                // the interpreter state may be inconsistent after a panic: leak it, never touch it again
+                if let Some(s) = session.take() {
+                    std::mem::forget(s);
+                }
+                let msg = LAST_PANIC.with(|p| p.borrow().clone());
+                format!("PANIC {}", hex(&msg))
+            },
+        };
+        let _ = writeln!(out, "{}", response.replace('\n', " "));
+        let _ = out.flush();
+    }
+}
+
+
+pub fn main(stack_size: Option<usize>) {
+    match stack_size {
+        None => serve(),
+        Some(n) => {
+            // same construction as the GUI worker thread
+            std::thread::Builder::new().stack_size(n).spawn(serve).unwrap().join().unwrap();
+        },
+    }
+}
